@@ -8,14 +8,21 @@ package main
 // ships (history, observation) to Coq (Run/C13Run.v).
 
 import (
+	"bytes"
 	"encoding/json"
 	"fmt"
+	"io"
 	"reflect"
 	"sort"
 	"strings"
 
 	"go.pennock.tech/tabular"
+	"go.pennock.tech/tabular/auto"
 	"go.pennock.tech/tabular/csv"
+	"go.pennock.tech/tabular/html"
+	json2 "go.pennock.tech/tabular/json"
+	"go.pennock.tech/tabular/markdown"
+	"go.pennock.tech/tabular/texttable"
 )
 
 // ---------------------------------------------------------------- spec
@@ -42,6 +49,11 @@ type C13Op struct {
 	// reg on a column only: 1+index of the earlier hcol operation whose handle
 	// (t.Column(n) taken back then) is passed as the owner; 0 = t.Column(n) now
 	H int `json:"h,omitempty"`
+	// whose RegisterPropertyCallback method is called: "" = the table's own,
+	// "other" = that of a different, otherwise unused *ATable (helper code that
+	// prepares rows with a table of its own), "wrapper" = a rendering wrapper's
+	// (the embedded table's method)
+	Through string `json:"through,omitempty"`
 	// render-time reg only: the callback panics (after logging and setting its
 	// property) when invoked in render pass number Panic (1-based); the harness
 	// recovers, that pass is void, the property is judged on the other passes
@@ -120,6 +132,9 @@ func (o C13Op) String() string {
 		if o.Panic > 0 {
 			extra += fmt.Sprintf(",panics in pass %d", o.Panic)
 		}
+		if o.Through != "" {
+			extra += ",registered through " + o.Through
+		}
 		return fmt.Sprintf("reg#%d(%s,%s,%s%s)", o.CB, ow, o.Time, o.Target, extra)
 	}
 	return o.K
@@ -166,11 +181,17 @@ func (x c13Tgt) key() string { return x.K + fmt.Sprint(x.A, ".", x.B) }
 type c13Ev struct {
 	CB int
 	X  c13Tgt
+	V  int // what the callback could see: the number of cells of the target's row at that moment
 }
 
-func (e c13Ev) String() string { return fmt.Sprintf("#%d@%s", e.CB, e.X) }
-func (e c13Ev) Coq() string    { return "(" + cqNat(e.CB) + ", " + e.X.Coq() + ")" }
-func (e c13Ev) key() string    { return fmt.Sprint(e.CB, "@", e.X.key()) }
+func (e c13Ev) String() string {
+	if e.X.K == "row" || e.X.K == "cell" {
+		return fmt.Sprintf("#%d@%s(row has %d cells)", e.CB, e.X, e.V)
+	}
+	return fmt.Sprintf("#%d@%s", e.CB, e.X)
+}
+func (e c13Ev) Coq() string { return "(" + cqNat(e.CB) + ", " + e.X.Coq() + ")" }
+func (e c13Ev) key() string { return fmt.Sprint(e.CB, "@", e.X.key()) }
 
 // ---------------------------------------------------------------- a small shape simulator (owners that exist, wf, expected trace for grouping)
 
@@ -335,7 +356,7 @@ func (s *c13Sim) fire(owner string, a, b int, target, tm string, x c13Tgt) []c13
 				continue
 			}
 		}
-		out = append(out, c13Ev{r.CB, x})
+		out = append(out, c13Ev{CB: r.CB, X: x})
 	}
 	return out
 }
@@ -360,7 +381,21 @@ func (s *c13Sim) addCells(id, from, to int) {
 	}
 }
 
+func (s *c13Sim) viewOf(x c13Tgt) int {
+	if (x.K == "row" || x.K == "cell") && x.A >= 0 && x.A < len(s.rows) {
+		return s.rows[x.A].cells
+	}
+	return 0
+}
+
 func (s *c13Sim) step(o C13Op) {
+	// "a row with its cells": every invocation of the operation sees the row as the operation leaves it
+	n0 := len(s.add)
+	defer func() {
+		for i := n0; i < len(s.add); i++ {
+			s.add[i].V = s.viewOf(s.add[i].X)
+		}
+	}()
 	id := len(s.rows)
 	idx := s.opIndex
 	s.opIndex++
@@ -504,6 +539,9 @@ func (s *c13Sim) renderPass() []c13Ev {
 		out = append(out, s.fire("column", n, 0, "itself", "post", c13Tgt{K: "col", A: n})...)
 	}
 	out = append(out, s.fire("table", 0, 0, "itself", "post", c13Tgt{K: "table"})...)
+	for i := range out {
+		out[i].V = s.viewOf(out[i].X)
+	}
 	return out
 }
 
@@ -540,8 +578,107 @@ type c13Env struct {
 	pass      int                      // render pass under way (1-based)
 	stamps    []*tabular.Cell          // local Cell variables
 	other     *tabular.ATable          // another table, a source of cell values
+	helper    *tabular.ATable          // another table, whose RegisterPropertyCallback method is used
+	wrappers  map[string]c13Renderer   // rendering wrappers made once per run
 	inherited map[[2]int]map[int]bool  // properties a cell had already when its value was added
 	seenCells map[[2]int]*tabular.Cell // the object each cell-target invocation received
+}
+
+type c13Renderer interface {
+	Render() (string, error)
+	RenderTo(io.Writer) error
+}
+
+// every entry point through which a render pass can be asked for: "" =
+// t.InvokeRenderCallbacks(); "<pkg>.Render" / "<pkg>.RenderTo" = the
+// package-level functions; "<pkg>.Wrap.Render" / "<pkg>.Wrap.RenderTo" = the
+// methods of a wrapper made once and reused for every pass;
+// "auto.<fn>:<style>" = the auto package with a style
+var c13Vias = func() []string {
+	out := []string{}
+	for _, pkg := range []string{"csv", "json", "markdown", "texttable"} {
+		out = append(out, pkg+".Render", pkg+".RenderTo", pkg+".Wrap.Render", pkg+".Wrap.RenderTo")
+	}
+	out = append(out, "html.Wrap.Render", "html.Wrap.RenderTo")
+	for _, style := range []string{"csv", "html", "json", "markdown", "texttable", "utf8-light", "texttable.ascii-simple"} {
+		out = append(out, "auto.Render:"+style, "auto.RenderTo:"+style, "auto.Wrap.Render:"+style, "auto.Wrap.RenderTo:"+style)
+	}
+	return out
+}()
+
+func (e *c13Env) renderVia(via string) {
+	t := e.t
+	if via == "" {
+		t.InvokeRenderCallbacks()
+		return
+	}
+	if via == "csv" { // older specs
+		via = "csv.Render"
+	}
+	style := ""
+	if i := strings.Index(via, ":"); i >= 0 {
+		via, style = via[:i], via[i+1:]
+	}
+	wrapped := func(key string, mk func() c13Renderer) c13Renderer {
+		if e.wrappers == nil {
+			e.wrappers = map[string]c13Renderer{}
+		}
+		if w, ok := e.wrappers[key]; ok {
+			return w
+		}
+		w := mk()
+		e.wrappers[key] = w
+		return w
+	}
+	var sink bytes.Buffer
+	switch via {
+	case "csv.Render":
+		csv.Render(t)
+	case "csv.RenderTo":
+		csv.RenderTo(t, &sink)
+	case "csv.Wrap.Render":
+		wrapped("csv", func() c13Renderer { return csv.Wrap(t) }).Render()
+	case "csv.Wrap.RenderTo":
+		wrapped("csv", func() c13Renderer { return csv.Wrap(t) }).RenderTo(&sink)
+	case "json.Render":
+		json2.Render(t)
+	case "json.RenderTo":
+		json2.RenderTo(t, &sink)
+	case "json.Wrap.Render":
+		wrapped("json", func() c13Renderer { return json2.Wrap(t) }).Render()
+	case "json.Wrap.RenderTo":
+		wrapped("json", func() c13Renderer { return json2.Wrap(t) }).RenderTo(&sink)
+	case "markdown.Render":
+		markdown.Render(t)
+	case "markdown.RenderTo":
+		markdown.RenderTo(t, &sink)
+	case "markdown.Wrap.Render":
+		wrapped("markdown", func() c13Renderer { return markdown.Wrap(t) }).Render()
+	case "markdown.Wrap.RenderTo":
+		wrapped("markdown", func() c13Renderer { return markdown.Wrap(t) }).RenderTo(&sink)
+	case "texttable.Render":
+		texttable.Render(t)
+	case "texttable.RenderTo":
+		texttable.RenderTo(t, &sink)
+	case "texttable.Wrap.Render":
+		wrapped("texttable", func() c13Renderer { return texttable.Wrap(t) }).Render()
+	case "texttable.Wrap.RenderTo":
+		wrapped("texttable", func() c13Renderer { return texttable.Wrap(t) }).RenderTo(&sink)
+	case "html.Wrap.Render":
+		wrapped("html", func() c13Renderer { return html.Wrap(t) }).Render()
+	case "html.Wrap.RenderTo":
+		wrapped("html", func() c13Renderer { return html.Wrap(t) }).RenderTo(&sink)
+	case "auto.Render":
+		auto.Render(t, style)
+	case "auto.RenderTo":
+		auto.RenderTo(t, &sink, style)
+	case "auto.Wrap.Render":
+		wrapped("auto:"+style, func() c13Renderer { return auto.Wrap(t, style) }).Render()
+	case "auto.Wrap.RenderTo":
+		wrapped("auto:"+style, func() c13Renderer { return auto.Wrap(t, style) }).RenderTo(&sink)
+	default:
+		panic("harness: unknown render path " + via)
+	}
 }
 
 // c13Boom is what a panicking recorder panics with
@@ -561,7 +698,19 @@ func (e *c13Env) invoked(id int, fail bool, boom int, o tabular.PropertyOwner) e
 		}
 		e.seenCells[[2]int{x.A, x.B}] = p
 	}
-	ev := c13Ev{id, x}
+	ev := c13Ev{CB: id, X: x}
+	switch p := o.(type) {
+	case *tabular.Row:
+		ev.V = len(p.Cells())
+	case *tabular.Cell:
+		if x.K == "cell" {
+			if x.A == e.hdrID {
+				ev.V = len(e.t.Headers())
+			} else if r := e.rowPtr(x.A); r != nil {
+				ev.V = len(r.Cells())
+			}
+		}
+	}
 	if e.render {
 		e.rndLog = append(e.rndLog, ev)
 	} else {
@@ -970,15 +1119,25 @@ func c13Exec(sp C13Spec) (ob c13Obs) {
 			case "row":
 				tg = tabular.CB_ON_ROW
 			}
+			var via tabular.Table = t
+			switch o.Through {
+			case "other":
+				if env.helper == nil {
+					env.helper = tabular.New()
+				}
+				via = env.helper
+			case "wrapper":
+				via = csv.Wrap(t)
+			}
 			switch o.Time {
 			case "add":
-				err = t.RegisterPropertyCallback(owner, tabular.CB_AT_ADD, tg, rec)
+				err = via.RegisterPropertyCallback(owner, tabular.CB_AT_ADD, tg, rec)
 			case "pre":
-				err = t.RegisterPropertyCallback(owner, tabular.CB_AT_RENDER_PRECELL, tg, rec)
+				err = via.RegisterPropertyCallback(owner, tabular.CB_AT_RENDER_PRECELL, tg, rec)
 			case "render":
-				err = t.RegisterPropertyCallback(owner, tabular.CB_AT_RENDER, tg, rec)
+				err = via.RegisterPropertyCallback(owner, tabular.CB_AT_RENDER, tg, rec)
 			default:
-				err = t.RegisterPropertyCallback(owner, tabular.CB_AT_RENDER_POSTCELL, tg, rec)
+				err = via.RegisterPropertyCallback(owner, tabular.CB_AT_RENDER_POSTCELL, tg, rec)
 			}
 			if err != nil {
 				ob.regCode[opi] = 1
@@ -1000,18 +1159,14 @@ func c13Exec(sp C13Spec) (ob c13Obs) {
 						aborted = true // a recording callback panicked on purpose; the caller (we) recovers
 						return
 					}
-					if sp.Via == "csv" {
+					if sp.Via != "" {
 						// a panic further down in the renderer (C05/C09's subject): the callbacks ran first
 						return
 					}
 					panic(r)
 				}
 			}()
-			if sp.Via == "csv" {
-				csv.Render(t) // error (no columns) or not: the callbacks ran first
-			} else {
-				t.InvokeRenderCallbacks()
-			}
+			env.renderVia(sp.Via) // error (e.g. no columns) or not: one pass of the callbacks ran first
 		}()
 		if aborted {
 			ob.Aborted = append(ob.Aborted, c13Strs(env.rndLog[before:])...)
@@ -1043,7 +1198,7 @@ func c13Exec(sp C13Spec) (ob c13Obs) {
 	}
 	for _, id := range cids {
 		if has(t, id) {
-			ob.props = append(ob.props, c13Ev{id, c13Tgt{K: "table"}})
+			ob.props = append(ob.props, c13Ev{CB: id, X: c13Tgt{K: "table"}})
 		}
 		for n := 0; n <= t.NColumns(); n++ {
 			if c := t.Column(n); c != nil && has(c, id) {
@@ -1055,7 +1210,7 @@ func c13Exec(sp C13Spec) (ob c13Obs) {
 					}
 				}
 				if live {
-					ob.props = append(ob.props, c13Ev{id, c13Tgt{K: "col", A: n}})
+					ob.props = append(ob.props, c13Ev{CB: id, X: c13Tgt{K: "col", A: n}})
 				}
 			}
 		}
@@ -1065,11 +1220,11 @@ func c13Exec(sp C13Spec) (ob c13Obs) {
 				continue
 			}
 			if has(r, id) {
-				ob.props = append(ob.props, c13Ev{id, c13Tgt{K: "row", A: rid}})
+				ob.props = append(ob.props, c13Ev{CB: id, X: c13Tgt{K: "row", A: rid}})
 			}
 			for c := 1; c <= len(r.Cells()); c++ {
 				if p := env.cellPtr(rid, c); p != nil && has(p, id) {
-					ev := c13Ev{id, c13Tgt{K: "cell", A: rid, B: c}}
+					ev := c13Ev{CB: id, X: c13Tgt{K: "cell", A: rid, B: c}}
 					if env.inherited[[2]int{rid, c}][id] && !logged[ev.key()] {
 						continue // the value carried this property when it was added: no callback set it here
 					}
@@ -1082,7 +1237,7 @@ func c13Exec(sp C13Spec) (ob c13Obs) {
 		// table; read through the object the callbacks were handed
 		for rc, p := range env.seenCells {
 			if rc[0] != env.hdrID && rc[0] < len(env.rows) && env.rowPtr(rc[0]) == nil && has(p, id) {
-				ob.props = append(ob.props, c13Ev{id, c13Tgt{K: "cell", A: rc[0], B: rc[1]}})
+				ob.props = append(ob.props, c13Ev{CB: id, X: c13Tgt{K: "cell", A: rc[0], B: rc[1]}})
 			}
 		}
 		// a header row whose pointer no callback ever received: its cells are still reachable
@@ -1090,7 +1245,7 @@ func c13Exec(sp C13Spec) (ob c13Obs) {
 			hs := t.Headers()
 			for i := range hs {
 				if has(&hs[i], id) {
-					ob.props = append(ob.props, c13Ev{id, c13Tgt{K: "cell", A: env.hdrID, B: i + 1}})
+					ob.props = append(ob.props, c13Ev{CB: id, X: c13Tgt{K: "cell", A: env.hdrID, B: i + 1}})
 				}
 			}
 		}
@@ -1189,6 +1344,12 @@ func c13Sig(sp C13Spec, ob *c13Obs, sim *c13Sim, expRender []c13Ev, copyCol bool
 		if hasBoom {
 			return what + "-invocation-in-a-pass-other-than-the-one-a-callback-panicked-in"
 		}
+		if what == "extra" && sp.Via != "" && len(ob.rnd) > len(expRender) && len(expRender) > 0 && len(ob.rnd)%len(expRender) == 0 {
+			return "one-render-call-runs-more-than-one-pass"
+		}
+		if r.Through != "" {
+			return what + "-invocation-of-a-callback-registered-through-another-table-object"
+		}
 		if equalInSlot[e.CB] {
 			return what + "-invocation-of-a-callback-equal-to-another-in-its-slot"
 		}
@@ -1243,6 +1404,24 @@ func c13Sig(sp C13Spec, ob *c13Obs, sim *c13Sim, expRender []c13Ev, copyCol bool
 		for i := range ob.rnd {
 			if ob.rnd[i].key() != expRender[i].key() {
 				return "render-order"
+			}
+		}
+	}
+	{
+		// same invocations: did each see its row as the operation leaves it
+		wantV := map[string][]int{}
+		for _, e := range append(append([]c13Ev{}, sim.add...), expRender...) {
+			wantV[e.key()] = append(wantV[e.key()], e.V)
+		}
+		for _, e := range append(append([]c13Ev{}, ob.add...), ob.rnd...) {
+			ok := false
+			for _, v := range wantV[e.key()] {
+				if v == e.V {
+					ok = true
+				}
+			}
+			if !ok {
+				return "callback-sees-its-row-without-all-its-cells:" + e.X.K
 			}
 		}
 	}
@@ -1343,8 +1522,8 @@ func c13Snippet(sp C13Spec) string {
 		}
 	}
 	call := "t.InvokeRenderCallbacks()"
-	if sp.Via == "csv" {
-		call = "csv.Render(t)"
+	if sp.Via != "" {
+		call = sp.Via + " (Wrap = one wrapper for all passes)"
 	}
 	fmt.Fprintf(&sb, "%d x %s (each under recover())  // rec(i) logs (i, object received) and sets property i on it; the same i twice = the same object twice; twins are distinct objects with equal contents; failing ones also return an error", sp.Passes, call)
 	return sb.String()
@@ -1467,7 +1646,7 @@ func c13Run(spec json.RawMessage) CaseOut {
 	}
 	if !wf {
 		// outside the quantifier (only a shrink candidate can get here): not executed
-		return CaseOut{Coq: cqPair(cqPair("[]", cqNat(0)), "(Ok (mkObs [] [] [] []))"), Desc: map[string]interface{}{"sig": "", "skipped": "history outside the property's quantifier"},
+		return CaseOut{Coq: cqPair(cqPair("[]", cqNat(0)), "(Ok (mkObs [] [] [] [] [] []))"), Desc: map[string]interface{}{"sig": "", "skipped": "history outside the property's quantifier"},
 			Size: size, Tags: []string{"not-wf"}, Key: "notwf" + string(spec), Nontrivial: false}
 	}
 
@@ -1493,7 +1672,9 @@ func c13Run(spec json.RawMessage) CaseOut {
 		}
 	}
 	ob.Add, ob.Render = c13Strs(ob.add), c13Strs(ob.rnd)
-	ob.Props = c13Strs(ob.props)
+	for _, p := range ob.props {
+		ob.Props = append(ob.Props, fmt.Sprintf("#%d@%s", p.CB, p.X))
+	}
 	ob.ExpAdd, ob.ExpRnd = c13Strs(sim.add), c13Strs(expRender)
 	ob.History = strings.Join(names, "; ")
 	ob.Sig = c13Sig(sp, &ob, sim, expRender, copyCol)
@@ -1513,7 +1694,14 @@ func c13Run(spec json.RawMessage) CaseOut {
 		for i, p := range ob.props {
 			props[i] = "(" + p.X.Coq() + ", " + cqNat(p.CB) + ")"
 		}
-		obsCoq = fmt.Sprintf("(Ok (mkObs %s %s %s %s))", cqList(regs), c13Events(ob.add), c13Events(ob.rnd), cqList(props))
+		views := func(evs []c13Ev) string {
+			xs := make([]string, len(evs))
+			for i, e := range evs {
+				xs[i] = cqNat(e.V)
+			}
+			return cqList(xs)
+		}
+		obsCoq = fmt.Sprintf("(Ok (mkObs %s %s %s %s %s %s))", cqList(regs), c13Events(ob.add), c13Events(ob.rnd), cqList(props), views(ob.add), views(ob.rnd))
 	}
 
 	// tags: the input distribution
@@ -1521,7 +1709,7 @@ func c13Run(spec json.RawMessage) CaseOut {
 	if sim.ncols >= 10 {
 		ncolsTag = "ncols>=10"
 	}
-	tags := []string{fmt.Sprintf("passes=%d", sp.Passes), "via=" + map[string]string{"": "direct", "csv": "csv"}[sp.Via],
+	tags := []string{fmt.Sprintf("passes=%d", sp.Passes), "via=" + map[bool]string{true: "direct", false: sp.Via}[sp.Via == ""],
 		ncolsTag, fmt.Sprintf("rows=%d", len(sim.order))}
 	{
 		seenCB := map[int]bool{}
@@ -1816,6 +2004,9 @@ func c13RandHistory(r *RNG, maxOps, maxRegs int) C13Spec {
 			if c.time != "add" && r.Pct(8) {
 				o.Panic = 1 + r.Intn(2)
 			}
+			if r.Pct(20) {
+				o.Through = pick(r, []string{"other", "other", "wrapper"})
+			}
 			if nreg > 1 && r.Pct(15) { // an earlier callback object again
 				o.CB = 1 + r.Intn(nreg-1)
 			}
@@ -1835,7 +2026,7 @@ func c13RandHistory(r *RNG, maxOps, maxRegs int) C13Spec {
 	}
 	sp := C13Spec{Ops: ops, Passes: 1 + r.Intn(3)}
 	if r.Pct(30) {
-		sp.Via = "csv"
+		sp.Via = pick(r, c13Vias)
 	}
 	return sp
 }
@@ -1846,7 +2037,7 @@ func c13Gen(r *RNG, tier string) []json.RawMessage {
 	add := func(ops []C13Op) {
 		sp := C13Spec{Ops: ops, Passes: 1 + count%3}
 		if count%4 == 3 {
-			sp.Via = "csv"
+			sp.Via = c13Vias[(count/4)%len(c13Vias)] // every entry point of every renderer, in turn
 		}
 		count++
 		out = append(out, mustJSON(sp))
@@ -1921,6 +2112,9 @@ func c13Gen(r *RNG, tier string) []json.RawMessage {
 	c13GenFailing(r, tier, add)
 	c13GenValues(r, tier, add)
 	c13GenPanics(r, tier, func(sp C13Spec) { out = append(out, mustJSON(sp)) })
+	c13GenThrough(r, tier, add)
+	var long []json.RawMessage
+	c13GenLong(r, tier, func(sp C13Spec) { long = append(long, mustJSON(sp)) })
 	// random histories
 	n := 400
 	if tier == "thorough" {
@@ -1929,7 +2123,18 @@ func c13Gen(r *RNG, tier string) []json.RawMessage {
 	for i := 0; i < n; i++ {
 		out = append(out, mustJSON(c13RandHistory(r, 12, 4)))
 	}
-	return out
+	// the long tables are spread evenly over the run (the evaluation is sharded in order)
+	merged := make([]json.RawMessage, 0, len(out)+len(long))
+	li := 0
+	for i, c := range out {
+		for li < len(long) && (li+1)*len(out)/(len(long)+1) <= i {
+			merged = append(merged, long[li])
+			li++
+		}
+		merged = append(merged, c)
+	}
+	merged = append(merged, long[li:]...)
+	return merged
 }
 
 // Cells are values.  (a) A local Cell variable with 0-2 callbacks registered
@@ -2044,6 +2249,92 @@ func c13GenValues(r *RNG, tier string, add func([]C13Op)) {
 	}
 }
 
+// The table object whose RegisterPropertyCallback method is called does not
+// matter: every firing single registration made through another table's
+// method and through a rendering wrapper's.
+func c13GenThrough(r *RNG, tier string, add func([]C13Op)) {
+	n := 0
+	for _, shape := range c13Shapes {
+		for _, c := range c13Combos() {
+			for _, in := range c13Instances(shape, c.owner) {
+				o := c13RegOp(c, in, 1)
+				o.Through = "other"
+				if n%3 == 2 {
+					o.Through = "wrapper"
+				}
+				ops := c13Insert(shape, in.since, o)
+				if !c13Fires(ops) {
+					continue
+				}
+				n++
+				add(ops)
+				if tier == "thorough" && in.since != len(shape) {
+					add(c13Insert(shape, len(shape), o))
+				}
+			}
+		}
+	}
+}
+
+// Long tables (47 / 48 / 49 / 100 rows, separators count) rendered through
+// every entry point of every renderer: each call is exactly one pass.
+func c13GenLong(r *RNG, tier string, emit func(C13Spec)) {
+	regs := func(k, rows int) []C13Op {
+		mid := rows / 2
+		switch k % 6 {
+		case 0:
+			return []C13Op{{K: "reg", Owner: "table", Time: "pre", Target: "itself", CB: 1}, {K: "reg", Owner: "column", N: 1, Time: "post", Target: "itself", CB: 2}}
+		case 1:
+			return []C13Op{{K: "reg", Owner: "table", Time: "render", Target: "cell", CB: 1}}
+		case 2:
+			return []C13Op{{K: "reg", Owner: "column", N: 1, Time: "post", Target: "cell", CB: 1}}
+		case 3:
+			return []C13Op{{K: "reg", Owner: "row", R: mid, Time: "pre", Target: "itself", CB: 1}, {K: "reg", Owner: "row", R: mid, Time: "post", Target: "cell", CB: 2}}
+		case 4:
+			return []C13Op{{K: "reg", Owner: "cell", R: mid, N: 1, Time: "render", Target: "itself", CB: 1}}
+		}
+		return []C13Op{{K: "reg", Owner: "table", Time: "post", Target: "cell", CB: 1, Fail: true}, {K: "reg", Owner: "table", Time: "pre", Target: "cell", CB: 2, Kind: "twin"}}
+	}
+	k := 0
+	for _, rows := range []int{47, 48, 49, 100} {
+		var shape []C13Op
+		for i := 0; i < rows; i++ {
+			switch {
+			case i%10 == 9 && i != rows/2:
+				shape = append(shape, opK("sep"))
+			case i == 3:
+				shape = append(shape, opN("items", 2))
+			default:
+				shape = append(shape, opN("items", 1))
+			}
+		}
+		vias := append([]string{""}, c13Vias...)
+		for vi, via := range vias {
+			if tier != "thorough" && rows == 100 && vi%4 != 1 {
+				continue // the boundary sizes get every entry point; the 100-row table a quarter of them per run
+			}
+			variants := 1
+			if tier == "thorough" {
+				variants = 6
+			}
+			for v := 0; v < variants; v++ {
+				rg := regs(k+v, rows)
+				if tier != "thorough" {
+					rg = regs(vi, rows)
+				}
+				ops := append(append([]C13Op{}, shape...), rg...)
+				if vi%2 == 1 { // registered before the rows exist where the owner allows it
+					if rg[0].Owner == "table" {
+						ops = append(append([]C13Op{}, rg...), shape...)
+					}
+				}
+				emit(C13Spec{Ops: ops, Passes: 1 + (vi+v)%2, Via: via})
+			}
+			k++
+		}
+	}
+}
+
 // A callback that panics in one render pass (the caller recovers): that pass
 // is void; every other pass, before and after, must be complete.
 func c13GenPanics(r *RNG, tier string, emit func(C13Spec)) {
@@ -2075,7 +2366,7 @@ func c13GenPanics(r *RNG, tier string, emit func(C13Spec)) {
 					}
 					sp := C13Spec{Ops: ops, Passes: pp[1]}
 					if n%5 == 4 {
-						sp.Via = "csv"
+						sp.Via = c13Vias[(n/5)%len(c13Vias)]
 					}
 					emit(sp)
 				}
@@ -2266,7 +2557,10 @@ func c13GenFailing(r *RNG, tier string, add func([]C13Op)) {
 								continue
 							}
 							add(both)
-							add(append(append([]C13Op{}, shape...), g, f))
+							if tier == "thorough" || gt == "pre" || cell == cells[len(cells)-1] {
+								// registration order matters within one phase; across phases it is sampled in quick
+								add(append(append([]C13Op{}, shape...), g, f))
+							}
 						}
 					}
 				}
@@ -2388,6 +2682,28 @@ func c13Shrink(spec json.RawMessage) []json.RawMessage {
 			emit(C13Spec{Ops: ops, Passes: sp.Passes, Via: sp.Via})
 		}
 	}
+	for i, o := range sp.Ops {
+		if o.K != "reg" {
+			continue
+		}
+		clear := func(f func(*C13Op)) {
+			ops := append([]C13Op{}, sp.Ops...)
+			f(&ops[i])
+			emit(C13Spec{Ops: ops, Passes: sp.Passes, Via: sp.Via})
+		}
+		if o.Through != "" {
+			clear(func(q *C13Op) { q.Through = "" })
+		}
+		if o.Fail {
+			clear(func(q *C13Op) { q.Fail = false })
+		}
+		if o.Kind != "" {
+			clear(func(q *C13Op) { q.Kind = "" })
+		}
+		if o.Panic != 0 {
+			clear(func(q *C13Op) { q.Panic = 0 })
+		}
+	}
 	if sp.Passes > 0 {
 		emit(C13Spec{Ops: sp.Ops, Passes: sp.Passes - 1, Via: sp.Via})
 	}
@@ -2414,6 +2730,9 @@ func init() {
 			"callbacks that return an error: every firing single registration, and every failing pre-cell cell-targeted registration paired, in both orders, with every registration that fires for the same cell / its row / its column / the table; " +
 			"cell values with a history: a local Cell variable with 0-2 callbacks registered upon it added twice (one row, two rows, detached row) with further registrations on each stored copy in both orders; the value of a table cell (body, header) or of another table's cell added at another column position, into attached and detached rows, with column cell callbacks of every time on both columns (a stored copy is a new cell of its row that starts with the callbacks the value carried: shipped to the model as Row.Add plus those registrations); " +
 			"a callback that panics in one render pass (the harness recovers): that pass is void, every other pass before and after it must be complete - every firing render-time combination x shape; " +
+			"render passes asked for through every entry point of every renderer (package-level Render / RenderTo and the methods of a reused wrapper for csv, json, markdown, texttable; html's wrapper methods; auto.Render / RenderTo / Wrap with 7 styles: 42 paths besides t.InvokeRenderCallbacks()), in turn over all families, and on tables of 47 / 48 / 49 / 100 rows (separators count): exactly one pass per call; " +
+			"registrations made through the RegisterPropertyCallback method of another table object and of a rendering wrapper (every firing single registration); " +
+			"every invocation also reports what it can see - the number of cells of the row handed over, or of the row of the cell handed over - compared with the row 'with its cells' as the operation leaves it (add time) and as the table has it (render time); " +
 			"seeded random histories of up to 12 operations with up to 4 registrations (kinds, failures, panics, re-registered objects, handles, cell values, rows past the column capacity); " +
 			"a case is non-trivial when at least one invocation is expected or a registration must be refused; distinct = distinct spec; " +
 			"cell values carrying up to 5 callbacks in one time list are copied (append capacity boundaries)",
